@@ -24,6 +24,8 @@
 (*   assign f, form, recs / delete f                                       *)
 (*                                 obj[f] = recs / del obj[f]              *)
 (*   setbeh v                      obj.size_field_behavior = v             *)
+(*   setbehfails                   obj.size_field_behavior = <illegal      *)
+(*                                 value> raised: nothing changes          *)
 (*   other c, v                    ANOTHER live object of class c was      *)
 (*                                 created / configured with v / dumped    *)
 (* A dump is always of the living object, a parse always of a fresh object *)
@@ -103,6 +105,8 @@ TStep == /\ l <= Len(Tr.events)
                  /\ SetBeh(e.v)
               \/ /\ e.op = "other"
                  /\ OtherSet(e.c, e.v)
+              \/ /\ e.op = "setbehfails"       \* an illegal value was assigned and rejected
+                 /\ SetBehFails
          /\ l' = l + 1 /\ UNCHANGED tid
          /\ (Diag => PrintT(<<"AT", tid, l>>))
          /\ (l' = Len(Tr.events) + 1 => PrintT(<<"ACCEPTED", tid>>))
